@@ -2,6 +2,7 @@ import PercevalModel.Proto
 import PercevalModel.Model.C14
 import PercevalModel.Model.C14Life
 import PercevalModel.Model.C14Sym
+import PercevalModel.Model.C14Refl
 import Std.Data.HashMap
 
 /-!
@@ -29,6 +30,11 @@ import Std.Data.HashMap
          "snaps":[after every op {"params":{name:[lo,hi,periodic,variable,value]},
                                    "comps":{cid:{"vars":[..],"defined":b,"getvars":[null|"name"|q per slot]}}}]}
   {"op":"pbs"} -> {"U":rows,"unitary":b}
+  {"op":"refl","pi":q,"table":[...],"items":[item]}   reflectivity helpers (`Model/C14Refl.lean`)
+      item = {"f":"mod","conv":..,"h":[c,s],"tl":..,"bl":..,"tr":..,"br":..} -> {"mod":[[|U00|²,|U01|²],[|U10|²,|U11|²]],"r":cos²(θ/2)}
+           | {"f":"t2r"|"r2t","num":q,"env":[]} | {"f":"t2r"|"r2t","e":ast,"own":q|null,"env":[[name,q]]}
+                -> {"num":q|null} | {"expr":value at env q|null,"free":[names]}
+      -> {"out":[per item],"missing":[[fn,arg]]}
   {"op":"xsess", ...}   Expression objects and the symbolic branch (`Model/C14Expr.lean`, `Model/C14Sym.lean`):
       "pi":q, "table":[[fn,arg,res|null]]      the values of math.sin/cos/exp/sqrt/acos the harness supplies (null:
                                                not a real number); anything the model needs and does not find is
@@ -446,6 +452,55 @@ def xsess (j : Json) : Except String Json := do
   return Json.mkObj [("out", Json.arr outs), ("steps", Json.arr steps), ("final", Json.mkObj fin),
     ("missing", Json.arr miss.toArray)]
 
+/-! ### reflectivity helpers (`Model/C14Refl.lean`) -/
+
+/-- function applications the numeric forms `math.cos(v/2)**2` / `2*math.acos(math.sqrt(v))` need and the table
+does not hold -/
+def numNeeds (t : FTable) (f : String) (v : ℚ) : List (Fn1 × ℚ) :=
+  if f = "t2r" then (if t.contains (fkey .cos (v / 2)) then [] else [(.cos, v / 2)])
+  else match t.get? (fkey .sqrt v) with
+    | none => [(.sqrt, v)]
+    | some none => []
+    | some (some s) => if t.contains (fkey .acos s) then [] else [(.acos, s)]
+
+def reflOutToJson (I : Interp ℚ) (env : String → Option ℚ) : ReflOut ℚ → Json
+  | .num v => Json.mkObj [("num", optRatToJson v)]
+  | .expr e => Json.mkObj [("expr", optRatToJson (e.eval I env)), ("free", toJson e.vars.eraseDups)]
+
+def reflOp (j : Json) : Except String Json := do
+  let pi ← ratOfJson (← j.getObjVal? "pi")
+  let t ← tableOf j
+  let I := tableInterp pi t
+  let mut outs : Array Json := #[]
+  let mut missing : List (Fn1 × ℚ) := []
+  for it in ← arrOf j "items" do
+    let f ← strOf it "f"
+    if f = "mod" then
+      let conv ← convOf (← strOf it "conv")
+      let h ← angOf it "h"
+      let M := bsNum GQ.I conv h (← angOf it "tl") (← angOf it "bl") (← angOf it "tr") (← angOf it "br")
+      let row := fun (i : Fin 2) => Json.arr #[ratToJson (GQ.normSq (M i 0)), ratToJson (GQ.normSq (M i 1))]
+      outs := outs.push (Json.mkObj [("mod", Json.arr #[row 0, row 1]), ("r", ratToJson (reflOfAng h).re)])
+    else
+      if f ≠ "t2r" ∧ f ≠ "r2t" then throw s!"bad f {f}"
+      let envl ← (← arrOf it "env").toList.mapM fun e => do
+        match e with
+        | .arr #[.str x, v] => pure (x, ← ratOfJson v)
+        | _ => throw "bad env entry"
+      let env : String → Option ℚ := fun x => (envl.find? (·.1 = x)).map (·.2)
+      let arg : ReflArg ℚ ← match it.getObjVal? "num" with
+        | .ok v => do pure (ReflArg.num (← ratOfJson v))
+        | .error _ => do pure (ReflArg.par (← xexprOf (← it.getObjVal? "e")) (← optRatOf it "own"))
+      let out := if f = "t2r" then thetaToR I arg else rToTheta I arg
+      match out, arg with
+      | .expr e, _ => missing := missing ++ xneeds I t env e
+      | .num _, .num v => missing := missing ++ numNeeds t f v
+      | .num _, .par _ (some v) => missing := missing ++ numNeeds t f v
+      | .num _, .par _ none => pure ()
+      outs := outs.push (reflOutToJson I env out)
+  let miss := missing.eraseDups.map fun (f, x) => Json.arr #[.str f.str, ratToJson x]
+  return Json.mkObj [("out", Json.arr outs), ("missing", Json.arr miss.toArray)]
+
 def handleReq (j : Json) : Except String Json := do
   let op ← strOf j "op"
   match op with
@@ -513,6 +568,7 @@ def handleReq (j : Json) : Except String Json := do
     let M : Matrix (Fin 4) (Fin 4) GQ := pbs
     return Json.mkObj [("U", rowsOf M), ("unitary", toJson (unitaryB M))]
   | "xsess" => xsess j
+  | "refl" => reflOp j
   | _ => throw s!"unknown op {op}"
 
 def handle (j : Json) : Json :=
